@@ -9,6 +9,31 @@ import ast
 from .model import norm_text
 
 MAX_DEPTH = 6
+_SYNTH_CACHE = {}
+_OPERATOR_LAMBDAS = {
+    "neg": "lambda _a: -_a",
+    "pos": "lambda _a: +_a",
+    "not_": "lambda _a: not _a",
+    "add": "lambda _a, _b: _a + _b",
+    "sub": "lambda _a, _b: _a - _b",
+    "mul": "lambda _a, _b: _a * _b",
+    "truediv": "lambda _a, _b: _a / _b",
+    "floordiv": "lambda _a, _b: _a // _b",
+    "mod": "lambda _a, _b: _a % _b",
+    "pow": "lambda _a, _b: _a ** _b",
+    "matmul": "lambda _a, _b: _a @ _b",
+    "getitem": "lambda _a, _b: _a[_b]",
+    "eq": "lambda _a, _b: _a == _b",
+    "ne": "lambda _a, _b: _a != _b",
+    "lt": "lambda _a, _b: _a < _b",
+    "le": "lambda _a, _b: _a <= _b",
+    "gt": "lambda _a, _b: _a > _b",
+    "ge": "lambda _a, _b: _a >= _b",
+    "is_": "lambda _a, _b: _a is _b",
+    "is_not": "lambda _a, _b: _a is not _b",
+    "contains": "lambda _a, _b: _b in _a",
+    "truth": "lambda _a: bool(_a)",
+}
 
 
 class T:
@@ -169,6 +194,27 @@ def _has_exit(stmts):
     return False
 
 
+def _pure_constant_expr(n, repo, mod, depth=0):
+    if depth > 6:
+        return False
+    if isinstance(n, ast.Constant):
+        return isinstance(n.value, (int, float, complex, str, bool, type(None)))
+    if isinstance(n, ast.UnaryOp) and isinstance(n.op, (ast.USub, ast.UAdd)):
+        return _pure_constant_expr(n.operand, repo, mod, depth + 1)
+    if isinstance(n, ast.BinOp) and isinstance(n.op, (ast.Add, ast.Sub, ast.Mult, ast.Div, ast.Pow, ast.FloorDiv, ast.Mod)):
+        return _pure_constant_expr(n.left, repo, mod, depth + 1) and _pure_constant_expr(n.right, repo, mod, depth + 1)
+    if isinstance(n, ast.Tuple):
+        return all(_pure_constant_expr(e, repo, mod, depth + 1) for e in n.elts)
+    if isinstance(n, ast.Attribute):
+        r = repo.resolve_expr(mod, n)
+        return r is not None and r.kind in ("ext", "wrapped") and r.qual.rsplit(".", 1)[-1] in ("pi", "e", "inf", "nan", "euler_gamma")
+    if isinstance(n, ast.Call) and not n.keywords and n.args and isinstance(n.func, (ast.Name, ast.Attribute)):
+        r = repo.resolve_expr(mod, n.func)
+        if r is not None and (r.kind == "wrapped" or (r.kind == "ext" and r.qual.startswith(("numpy.", "math.")))):
+            return all(_pure_constant_expr(a, repo, mod, depth + 1) for a in n.args)
+    return False
+
+
 def _is_generator(fnode):
     for x in ast.walk(fnode):
         if isinstance(x, (ast.Yield, ast.YieldFrom)):
@@ -293,6 +339,7 @@ class Evaluator:
         self.effects = []  # (kind, term) side effects seen while evaluating (guards, expression statements)
         self._inline_cache = {}
         self._last_scope = None
+        self._const_cache = {}
         self.loops = []  # every loop-carried term created, in creation order (rules look a variable's loop up by (stmt, name))
         self._ctx = (0, ())  # (inlining depth, stack of function nodes being inlined) of the code being evaluated
 
@@ -318,7 +365,27 @@ class Evaluator:
         r = self.repo.resolve(mod, n.id)
         if r is None:
             return unknown(f"name:{n.id}", n)
+        c = self._module_constant(r)
+        if c is not None:
+            return c
         return T("ref", n, mod, ref=r)
+
+    def _module_constant(self, r):
+        """the value term of a module-level NAME = <pure constant expression> (numbers, strings, tuples of those,
+        arithmetic on them, a NumPy function applied to them): a hoisted literal reads like the literal"""
+        if getattr(r, "kind", None) != "repo" or getattr(r, "okind", None) != "assign" or not isinstance(r.node, ast.AST):
+            return None
+        key = id(r.node)
+        hit = self._const_cache.get(key)
+        if hit is not None:
+            return hit[1]
+        out = None
+        if _pure_constant_expr(r.node, self.repo, r.mod):
+            # a module-level name rebound later (x = 1; x = 2) is not a constant
+            if len(r.mod.top.get(r.name, [])) == 1:
+                out = self.ev(r.node, Scope(), r.mod)
+        self._const_cache[key] = (r.node, out)
+        return out
 
     def e_Attribute(self, n, sc, mod):
         # an attribute of a local object that was stored earlier on this path (self.top += 1; yield self.top)
@@ -333,6 +400,9 @@ class Evaluator:
         if isinstance(base, ast.Name) and sc.lookup(base.id) is None:
             r = self.repo.resolve_expr(mod, n)
             if r is not None:
+                c = self._module_constant(r)
+                if c is not None:
+                    return c
                 return T("ref", n, mod, ref=r)
             rb = self.repo.resolve_expr(mod, n.value)
             if rb is not None and rb.kind == "module":
@@ -767,12 +837,52 @@ class Evaluator:
         return v
 
     # ------------------------------------------------------------------ calls / inlining
+    def _synth_closure(self, src, binds=None):
+        """closure for a small lambda given as source text (operator.* functions, attrgetter/itemgetter/methodcaller)"""
+        key = src
+        node = _SYNTH_CACHE.get(key)
+        if node is None:
+            node = ast.parse(src, mode="eval").body
+            for n_ in ast.walk(node):
+                for c_ in ast.iter_child_nodes(n_):
+                    c_._parent = n_
+            _SYNTH_CACHE[key] = node
+        sc = Scope()
+        for k, v in (binds or {}).items():
+            sc.vars[k] = v
+        anymod = self.repo.mods.get("autograd.util") or next(iter(self.repo.mods.values()))
+        return T("closure", node, anymod, fnode=node, scope=sc, bound=[], boundkw={})
+
+    def _operator_closure(self, fn):
+        """operator.neg / operator.mul / ... and operator.attrgetter("a") / itemgetter(k) / methodcaller("m", *args)"""
+        if fn.op == "ref" and fn.ref.qual.startswith("operator.") or (fn.op == "ref" and fn.ref.qual.startswith("_operator.")):
+            nm = fn.ref.qual.rsplit(".", 1)[-1]
+            src = _OPERATOR_LAMBDAS.get(nm)
+            if src is not None:
+                return self._synth_closure(src)
+        if fn.op == "call" and fn.fn.op == "ref" and fn.fn.ref.qual in ("operator.attrgetter", "operator.itemgetter", "operator.methodcaller") and fn.args and not fn.kw:
+            kind = fn.fn.ref.qual.rsplit(".", 1)[-1]
+            a0 = fn.args[0]
+            if kind == "attrgetter" and len(fn.args) == 1 and a0.op == "const" and isinstance(a0.value, str) and a0.value.isidentifier():
+                return self._synth_closure(f"lambda _o: _o.{a0.value}")
+            if kind == "itemgetter" and len(fn.args) == 1:
+                return self._synth_closure("lambda _o: _o[_k]", {"_k": a0})
+            if kind == "methodcaller" and a0.op == "const" and isinstance(a0.value, str) and a0.value.isidentifier():
+                names = [f"_a{i}" for i in range(len(fn.args) - 1)]
+                return self._synth_closure(f"lambda _o: _o.{a0.value}({', '.join(names)})", dict(zip(names, fn.args[1:])))
+        if fn.op == "attr" and fn.name == "__getitem__":
+            return self._synth_closure("lambda _i: _o[_i]", {"_o": fn.obj})
+        return None
+
     def as_closure(self, fn):
         """Turn a callee term into (closure term, extra leading args, extra kw) if it is inlinable."""
         pre, prekw = [], {}
         seen = 0
         while seen < 8:
             seen += 1
+            oc = self._operator_closure(fn)
+            if oc is not None:
+                return oc, pre, prekw
             if fn.op == "closure":
                 return fn, list(fn.bound) + pre, {**fn.boundkw, **prekw}
             if fn.op == "partial":
@@ -796,6 +906,9 @@ class Evaluator:
                         if v.op in ("partial", "closure"):
                             fn = v
                             continue
+                        oc = self._operator_closure(v)
+                        if oc is not None:
+                            return oc, pre, prekw
                         if v.op == "call":
                             res = self.inline(v)
                             if res is not None and res.op in ("closure", "partial"):
@@ -916,8 +1029,8 @@ class Evaluator:
                 bound[a.vararg.arg] = T("rest", fnode, mod, start=star_src.start + star_off)
             else:
                 extra = pos[pi:]
-                if len(extra) == 1 and extra[0].op == "star" and extra[0].x.op == "rest":
-                    bound[a.vararg.arg] = extra[0].x
+                if len(extra) == 1 and extra[0].op == "star" and extra[0].x.op in ("rest", "sym"):
+                    bound[a.vararg.arg] = extra[0].x  # f(*xs) with xs the caller's own sequence of arguments
                 else:
                     bound[a.vararg.arg] = T("tuple", fnode, mod, elts=extra)
         # keyword-only
@@ -930,7 +1043,7 @@ class Evaluator:
                 bound[p.arg] = unknown(f"missing-kwonly:{p.arg}", fnode)
         if a.kwarg is not None:
             extra_kw = {k: v for k, v in kw.items() if k not in params and k not in [x.arg for x in a.kwonlyargs]}
-            if dstar and dstar[0].op == "kwrest" and not extra_kw:
+            if dstar and len(dstar) == 1 and dstar[0].op in ("kwrest", "sym") and not extra_kw:
                 bound[a.kwarg.arg] = dstar[0]
             else:
                 bound[a.kwarg.arg] = T("dict", fnode, mod, items=[(const(k), v) for k, v in extra_kw.items()], dstar=list(dstar))
